@@ -10,6 +10,9 @@ COQ_IMPORTS = ['Prims', 'CaseLib', 'Golomb', 'IntCodec']
 RULE = ('all fixed dtypes (uint, int, be/le/ne forms, hex, oct, bin, bytes, bool, bits, float 16/32/64 in every endianness) x lengths 1..520 (whole bytes for endian types; exhaustively 1..24 for ints) x '
         'values at 0, +-1, min, max and random x six creation routes (keyword+length, length in the name, property assignment, token string, Dtype.build, pack) x five reading routes '
         '(property, property with length, Dtype.parse, unpack, read) x four classes; conversely random bit patterns of valid lengths are interpreted and rebuilt. '
+        'one stream object read field by field through thirteen stream reading routes with refused calls of 27 kinds in between (too few bits for read / peek / readlist / peeklist / '
+        'Dtype reads, bad tokens, absent patterns, refused positions, properties and mutations); every creation and reading route again after a prelude of Dtype constructions in '
+        '17 spellings (from instances, with length= / scale=), uses of those Dtypes, refused creations and interpretations; '
         'non-trivial = value not 0; distinct by (dtype, length, value, routes)')
 TRUSTED_BASE = ['translator tools/gen/dtypes.py (bridged: generated dtype table = IntCodec model table, by reflexivity)']
 ASSUMPTIONS = ['struct.pack/unpack is the IEEE 754 reference for floats (floats are compared through their bytes / float.hex, never as floats)', 'int.to_bytes / format() are the independent integer encoders']
@@ -104,7 +107,459 @@ def gen_cases(rng, tier):
             spec = {'name': rng.choice(['float', 'floatle', 'floatne', 'floatbe']), 'n': rng.choice([16, 32, 64]), 'f': rng.choice([1.0, -2.5, 0.1, 0.0]).hex()}
         yield dict(spec, op='adopt', cls=rng.choice(MUTABLE), edit=rng.choice(EDITS), with_len=rng.random() < 0.5, lsb0=rng.random() < 0.2)
 
-def kind(c): return c['op'] + ':' + c.get('name', c.get('kind', ''))
+    # one stream object, read field after field through every reading route, with REFUSED calls in between (a read / peek / readlist / peeklist / readto / unpack /
+    # property / position assignment / mutation that cannot be satisfied): a refused call consumes nothing, so the next read still returns the field at the position
+    for _ in range(N // 2):
+        yield gen_stream(rng, tier)
+    # history: what a plain dtype encodes and decodes does not depend on what was done before. A prelude of Dtype constructions in every spelling (from name + length,
+    # from a token, from a Dtype instance with or without length= / scale=, scaled variants), of uses of those Dtypes, and of refused creations / interpretations
+    # precedes an ordinary case; afterwards the case, EVERY creation route and EVERY reading route must still give the canonical encoding and the value
+    for _ in range(N // 2):
+        yield gen_hist(rng, tier)
+
+def kind(c):
+    if c['op'] == 'hist': return 'hist:' + c['field'][0]
+    if c['op'] == 'stream': return 'stream:' + c['cls']
+    return c['op'] + ':' + c.get('name', c.get('kind', ''))
+
+# ---------------------------------------------------------------------------------------------------------------------------------------------
+# fields: (dtype name, length in the dtype's units, JSON value)  ->  reference bits and the value every reading route has to return
+# ---------------------------------------------------------------------------------------------------------------------------------------------
+FLOATS = ['float', 'floatbe', 'floatle', 'floatne']
+DIGITK = {'hex': 16, 'oct': 8, 'bin': 2, 'bytes': 256, 'bits': 2}
+DIGITW = {'hex': 4, 'oct': 3, 'bin': 1, 'bytes': 8, 'bool': 1, 'bits': 1}
+
+def gen_field(rng, small=False):
+    """[name, n, v]: v is an int (ints), a hex float string (floats), a list of digits (hex/oct/bin/bytes/bits) or a bool"""
+    r = rng.random()
+    if r < 0.4:
+        name = rng.choice(INTS)
+        n = rng.choice(list(range(1, 25)) + [31, 32, 33, 63, 64, 65, 127, 128]) if name in ('uint', 'int') else 8 * rng.choice([1, 1, 2, 2, 3, 4, 5, 8, 9])
+        v = boundary(rng, name, n)
+        if not name.startswith('int') and v < 0: v = -v
+        return [name, n, v]
+    if r < 0.6:
+        f = rng.choice([0.0, -0.0, 1.0, -1.5, 0.1, 65504.0, 1e-8, 3.0e38, rng.uniform(-1e3, 1e3), rng.uniform(-1, 1) * 10 ** rng.randrange(-30, 30), float('inf'), float('-inf')])
+        return [rng.choice(FLOATS), rng.choice([16, 32, 64]), f.hex()]
+    if r < 0.95:
+        k = rng.choice(['hex', 'oct', 'bin', 'bytes', 'bits'])
+        return [k, None, [rng.randrange(DIGITK[k]) for _ in range(rng.choice([1, 1, 2, 3, 4, 5, 8, 9, 16, 17] if not small else [1, 2, 3]))]]
+    return ['bool', None, rng.random() < 0.5]
+
+def field_ref(fl):
+    """(bits, units, python value to create from, canonical JSON form of the value read back)"""
+    name, n, v = fl
+    if name in INTS: return ref_int_bits(name, n, v), n, v, v
+    if name in FLOATS:
+        x = float.fromhex(v); bits, back = ref_float_bits(name, n, x)
+        return bits, n, x, ['f', back.hex()]
+    if name == 'bool': return ('1' if v else '0'), None, bool(v), bool(v)
+    w = DIGITW[name]; bits = ''.join(format(d, f'0{w}b') for d in v); u = len(v) * (w if name in ('hex', 'oct') else 1)     # hex:n / oct:n count bits
+    if name == 'hex': t = ''.join('0123456789abcdef'[d] for d in v); return bits, u, t, t
+    if name in ('oct', 'bin'): t = ''.join(map(str, v)); return bits, u, t, t
+    if name == 'bytes': return bits, u, bytes(v), ['b', list(v)]
+    return bits, u, ('bits', bits), ['bits', bits]
+
+# ---------------------------------------------------------------------------------------------------------------------------------------------
+# op 'stream'
+# ---------------------------------------------------------------------------------------------------------------------------------------------
+STREAM_ROUTES = ['read_tok', 'read_nocolon', 'read_dtype', 'read_dtype_tok', 'peek_read', 'readlist_str', 'readlist_list', 'readlist_dtype', 'peeklist_read', 'readlist_kw',
+                 'read_int_prop', 'read_bits_prop', 'slice_prop', 'read_tok', 'peek_read']
+REFUSALS = ['read_long', 'peek_long', 'read_long_same', 'peek_long_same', 'read_int_long', 'peek_int_long', 'readlist_long', 'peeklist_long', 'readlist_list_long', 'read_dtype_long',
+            'peek_dtype_long', 'read_bad_token', 'read_negative', 'readto_absent', 'find_absent', 'unpack_long', 'prop_refused', 'parse_long', 'pos_beyond', 'pos_negative',
+            'bytepos_beyond', 'read_golomb_off_end', 'mutation_refused', 'readlist_kw_long', 'read_bad_length', 'peek_bad_token', 'read_rest_unaligned']
+
+def gen_stream(rng, tier):
+    nf = rng.choice([1, 1, 2, 3, 4, 6])
+    fields = [gen_field(rng) for _ in range(nf)]
+    lsb0 = nf == 1 and rng.random() < 0.3
+    lead = '' if lsb0 else rand_bits(rng, rng.choice([0, 0, 0, 1, 3, 5, 8, 13]))
+    tail = '' if lsb0 else rng.choice(['', '', '0', '000', '0000000', '1', '10110', rand_bits(rng, rng.randrange(0, 40))])
+    script = []
+    for _ in fields:
+        k = rng.choice([0, 1, 1, 1, 2, 3])
+        script.append({'refusals': [[rng.choice(REFUSALS), rng.randrange(1 << 16)] for _ in range(k)], 'route': rng.choice(STREAM_ROUTES)})
+    return {'op': 'stream', 'cls': rng.choice(['ConstBitStream', 'BitStream']), 'fields': fields, 'lead': lead, 'tail': tail, 'script': script,
+            'via': rng.choice(['bin', 'bytes', 'auto', 'copy', 'file']), 'lsb0': lsb0, 'end_refusals': [[rng.choice(REFUSALS), rng.randrange(1 << 16)] for _ in range(rng.choice([0, 1, 2]))]}
+
+def tok_of(name, u, colon=True):
+    return name if u is None else (f'{name}:{u}' if colon else f'{name}{u}')
+
+def too_long_token(r, rem, same=None):
+    """a token of a fixed-length dtype that needs more bits than the `rem` that are left"""
+    m = rem + 1 + r % 3
+    choices = [f'uint:{m}', f'int:{m}', f'bin:{m}', f'bits:{m}', f'pad:{m}', f'hex:{4 * (m // 4 + 1)}', f'oct:{3 * (m // 3 + 1)}', f'bytes:{m // 8 + 1}', f'uintbe:{8 * (m // 8 + 1)}',
+               f'uintle:{8 * (m // 8 + 1)}', f'intle:{8 * (m // 8 + 1)}', f'intne:{8 * (m // 8 + 1)}', f'uint{m}', f'intbe{8 * (m // 8 + 1)}']
+    for w in (16, 32, 64):
+        if rem < w: choices += [f'float:{w}', f'floatle:{w}', f'floatne{w}']
+    if rem < 16: choices += ['bfloat', 'bfloatle:16']
+    if rem < 8: choices += ['p3binary', 'e4m3mxfp', 'mxint', 'e8m0mxfp']
+    if rem == 0: choices += ['bool', 'uint:1']
+    if same:
+        name = same
+        if name in ('uintbe', 'intbe', 'uintle', 'intle', 'uintne', 'intne'): return f'{name}:{8 * (m // 8 + 1)}'
+        if name in FLOATS: return f'{name}:64' if rem < 64 else f'uint:{m}'
+        if name == 'hex': return f'hex:{4 * (m // 4 + 1)}'
+        if name == 'oct': return f'oct:{3 * (m // 3 + 1)}'
+        if name == 'bytes': return f'bytes:{m // 8 + 1}'
+        if name == 'bool': return f'uint:{m}'
+        return f'{name}:{m}'
+    return choices[(r >> 2) % len(choices)]
+
+def refuse(s, kind, r, name, rest_bits):
+    """one call that cannot be satisfied, on the stream itself; whatever it does is recorded, not judged (the reads after it are)"""
+    import bitstring
+    from bitstring import Dtype
+    rem = len(rest_bits)
+    long_tok = too_long_token(r, rem); same_tok = too_long_token(r, rem, same=name)
+    def mk_dtype(tok):
+        nm, _, ln = tok.partition(':')
+        return Dtype(nm, int(ln)) if ln else Dtype(tok)
+    if kind == 'read_long': return s.read(long_tok)
+    if kind == 'peek_long': return s.peek(long_tok)
+    if kind == 'read_long_same': return s.read(same_tok)
+    if kind == 'peek_long_same': return s.peek(same_tok)
+    if kind == 'read_int_long': return s.read(rem + 1 + r % 9)
+    if kind == 'peek_int_long': return s.peek(rem + 1 + r % 9)
+    if kind == 'readlist_long': return s.readlist(f'bits:{min(rem, r % 5)}, {long_tok}')          # the first token can be read, the second cannot
+    if kind == 'peeklist_long': return s.peeklist(f'bits:{min(rem, r % 5)}, {same_tok}')
+    if kind == 'readlist_list_long': return s.readlist([min(rem, r % 7), long_tok, 'bool'])
+    if kind == 'readlist_kw_long': return s.readlist('uint:a, bits:b', a=min(rem, 3), b=rem + 1)
+    if kind == 'read_dtype_long': return s.read(mk_dtype(same_tok if ':' in same_tok else long_tok if ':' in long_tok else f'uint:{rem + 1}'))
+    if kind == 'peek_dtype_long': return s.peek(mk_dtype(long_tok if ':' in long_tok else f'int:{rem + 2}'))
+    if kind == 'read_bad_token': return s.read(['nonsense:8', 'uint:0x', 'float:17', 'uintbe:12', 'bool:2', 'uint:-3', '', 'ue:3', 'hex:'][r % 9])
+    if kind == 'peek_bad_token': return s.peek(['nonsense', 'intle:7', 'bfloat:8', 'e4m3mxfp:7', 'bytes:-1'][r % 5])
+    if kind == 'read_bad_length': return s.read(f'{name}:0') if name not in ('bool',) else s.read('bool:0')
+    if kind == 'read_negative': return (s.read if r % 2 else s.peek)(-1 - r % 5)
+    if kind in ('readto_absent', 'find_absent'):
+        pat = None
+        for k in range(40):                   # a pattern that does not occur in what is left (chosen against the reference bits)
+            cand = format((r * 2654435761 + k * 40503) % (1 << 11), '011b')
+            if cand not in rest_bits: pat = cand; break
+        if pat is None: return 'no-absent-pattern'
+        return s.readto('0b' + pat) if kind == 'readto_absent' else s.find('0b' + pat, s.pos)
+    if kind == 'unpack_long': return s.unpack(f'bits:{len(s)}, uint:{1 + r % 9}')
+    if kind == 'prop_refused':
+        which = ['float', 'floatle', 'hex', 'oct', 'bytes', 'uintle', 'intbe', 'bool', 'bfloat', 'e4m3mxfp', 'uint7777', 'ue', 'se'][r % 13]
+        return getattr(s, which)             # refused for most lengths (when it is not, it is just another read-only interpretation)
+    if kind == 'parse_long': return Dtype('uint', len(s) + 1 + r % 8).parse(s)
+    if kind == 'pos_beyond': s.pos = len(s) + 1 + r % 70; return 'set'
+    if kind == 'pos_negative': s.pos = -1 - r % 9; return 'set'
+    if kind == 'bytepos_beyond': s.bytepos = len(s) // 8 + 1 + r % 5; return 'set'
+    if kind == 'read_golomb_off_end':
+        if '1' in rest_bits: return 'not-applicable'          # only a run of zeros to the end is a code that runs off the end
+        return s.read(['ue', 'se', 'uie', 'sie'][r % 4])
+    if kind == 'read_rest_unaligned':
+        for nm, w in (('hex', 4), ('oct', 3), ('bytes', 8), ('uintle', 8), ('floatbe', 0)):
+            if (w and rem % w) or (not w and rem not in (16, 32, 64)): return s.read(nm)        # "the rest" is not a whole number of units: refused
+        return 'not-applicable'
+    if kind == 'mutation_refused':
+        if not isinstance(s, bitstring.BitStream): return s.read(long_tok)
+        L = len(s); k = r % 8
+        if k == 0: return s.insert('0b1', L + 1 + r % 5)
+        if k == 1: return s.overwrite('0b101', L + 1)
+        if k == 2: s[L + r % 3] = 1; return 'set'
+        if k == 3: del s[L + r % 3]; return 'del'
+        if k == 4: return s.rol(1, L + 1, L + 2)
+        if k == 5: return s.set(1, L + r % 4)
+        if k == 6: return s.invert(-L - 1 - r % 4)
+        return s.byteswap(L // 8 + 1 + r % 3)
+    raise AssertionError(kind)
+
+def read_field(s, route, name, u, nbits):
+    """the field at the position, through one reading route of the stream; the position ends up behind the field"""
+    from bitstring import Dtype
+    tok = tok_of(name, u)
+    if route == 'read_tok': return cval(s.read(tok))
+    if route == 'read_nocolon': return cval(s.read(tok_of(name, u, False)))
+    if route == 'read_dtype': return cval(s.read(Dtype(name, u) if u is not None else Dtype(name)))
+    if route == 'read_dtype_tok': return cval(s.read(Dtype(tok)))
+    if route == 'peek_read': a = cval(s.peek(tok)); b = cval(s.read(tok)); return b if a == b else ['peek/read differ', a, b]
+    if route == 'readlist_str': return cval(s.readlist(tok)[0])
+    if route == 'readlist_list': return cval(s.readlist([tok])[0])
+    if route == 'readlist_dtype': return cval(s.readlist([Dtype(tok)])[0])
+    if route == 'readlist_kw': return cval(s.readlist(f'{name}:n', n=u)[0]) if u is not None else cval(s.readlist(name + ':1')[0])
+    if route == 'peeklist_read': a = cval(s.peeklist(tok)[0]); b = cval(s.readlist(['pad:0', tok])[0]); return b if a == b else ['peeklist/readlist differ', a, b]
+    if route == 'read_int_prop': return cval(getattr(s.read(nbits), name))
+    if route == 'read_bits_prop': return cval(getattr(s.read(f'bits:{nbits}'), tok_of(name, u, False)))
+    if route == 'slice_prop':
+        p = s.pos; v = cval(getattr(s[p:p + nbits], name)); s.pos = p + nbits; return v
+    raise AssertionError(route)
+
+def run_stream(c):
+    import bitstring, os, tempfile
+    refs = [field_ref(fl) for fl in c['fields']]
+    allbits = c['lead'] + ''.join(r[0] for r in refs) + c['tail']
+    C = cls_of(c['cls'])
+    def f():
+        via = c['via']; n = len(allbits)
+        if via == 'bin' or n == 0: s = C(bin=allbits)
+        elif via == 'auto': s = C('0b' + allbits)
+        elif via == 'copy': s = C(bitstring.Bits(bin=allbits))
+        elif via == 'bytes':
+            pad = allbits + '0' * (-n % 8); s = C(bytes=int(pad, 2).to_bytes(len(pad) // 8, 'big'), length=n)
+        else:
+            pad = '101' + allbits + '0' * (-(n + 3) % 8)
+            fd, path = tempfile.mkstemp(prefix='verif_c02_')
+            try:
+                with os.fdopen(fd, 'wb') as fh: fh.write(int(pad, 2).to_bytes(len(pad) // 8, 'big'))
+                s = C(filename=path, offset=3, length=n)
+            finally: os.unlink(path)
+        bitstring.options.lsb0 = bool(c.get('lsb0'))
+        if not c.get('lsb0'): s.pos = len(c['lead'])
+        out = []; at = len(c['lead'])
+        def refusals(lst, name):
+            o = []
+            for k, r in lst:
+                try: x = refuse(s, k, r, name, allbits[at:]); o.append([k, 'returned'])
+                except Exception as ex: o.append([k, type(ex).__name__])
+            return o
+        for fl, ref, step in zip(c['fields'], refs, c['script']):
+            ro = refusals(step['refusals'], fl[0])
+            try: v = read_field(s, step['route'], fl[0], ref[1], len(ref[0]))
+            except Exception as ex: v = 'RAISES ' + type(ex).__name__ + ': ' + str(ex)[:90]
+            at += len(ref[0])
+            out.append([ro, v])
+        ro = refusals(c.get('end_refusals', []), 'uint')
+        try: rest = s.read(len(s) - s.pos).bin if not c.get('lsb0') else ''
+        except Exception as ex: rest = 'RAISES ' + type(ex).__name__ + ': ' + str(ex)[:90]
+        return [out, ro, rest, s.bin]
+    return attempt(f, 20)
+
+def oracle_stream(c, obs):
+    if obs[0] != 'ok': return f"stream case could not be run: {obs} for {str(c)[:300]}"
+    out, ro_end, rest, allb = obs[1]
+    refs = [field_ref(fl) for fl in c['fields']]
+    hist = []
+    for i, (fl, ref, step, (ro, v)) in enumerate(zip(c['fields'], refs, c['script'], out)):
+        hist += [f"{k} ({what})" for k, what in ro]
+        if v != ref[3]:
+            before = ('after the earlier calls [' + ', '.join(hist[-5:]) + '] (refused ones with what they raised)') if hist else 'as the first call'
+            return (f"{c['cls']}{' [lsb0]' if c.get('lsb0') else ''} holding {len(c['fields'])} field(s) after {len(c['lead'])} leading bits: field {i} is {tok_of(fl[0], ref[1])} = {str(ref[3])[:60]} (bits {ref[0][:48]}); "
+                    f"{before} on the same stream, reading it through {step['route']} gave {str(v)[:200]}")
+        hist.append(f"{step['route']} of {tok_of(fl[0], ref[1])}")
+    if not c.get('lsb0') and rest != c['tail']:
+        return f"{c['cls']} after reading all {len(c['fields'])} fields and the refused calls {ro_end}: the rest of the stream reads as {rest[:80]!r}, it holds {c['tail']!r}"
+    exp_all = c['lead'] + ''.join(r[0] for r in refs) + c['tail']
+    if allb != exp_all: return f"{c['cls']}: after reads and refused calls the stream holds {allb[:80]}, it was built from {exp_all[:80]}"
+    return None
+
+# ---------------------------------------------------------------------------------------------------------------------------------------------
+# op 'hist'
+# ---------------------------------------------------------------------------------------------------------------------------------------------
+SPELLINGS = ['name_len', 'token', 'nocolon', 'kwlen', 'name_only', 'from_dtype', 'from_dtype_same_len', 'from_dtype_len', 'from_dtype_scale', 'from_dtype_len_scale', 'from_scaled_dtype',
+             'from_scaled_dtype_noscale', 'name_len_scale', 'token_scale', 'kw_scale_only', 'from_dtype_scale_none', 'register']
+USES = ['none', 'none', 'build', 'parse', 'attrs', 'str', 'hash_eq', 'array', 'readlist', 'read', 'pack', 'copy', 'build_bad', 'unpack', 'array_dtype_set', 'setattr']
+SCALES = [1, 1.0, True, 2, 0.25, 4, -1, 0.5, 3, 2 ** -10, 1e3, 0, -2.5, 8.0]
+HIST_STEPS = ['dtype', 'dtype', 'dtype', 'dtype', 'refused_create', 'refused_read', 'other_value', 'token_misuse']
+
+def gen_pstep(rng, name, u):
+    k = rng.choice(HIST_STEPS)
+    if rng.random() < 0.3:           # a neighbouring dtype / length instead of the one the case is about
+        if rng.random() < 0.5: name = rng.choice(INTS + FLOATS + ['hex', 'oct', 'bin', 'bytes', 'bits', 'bool'])
+        if u is not None: u = max(1, u + rng.choice([-8, -1, 1, 8, 16])) if name not in FLOATS else rng.choice([16, 32, 64])
+    st = {'k': k, 'name': name, 'u': u, 'lsb0': rng.random() < 0.15, 'r': rng.randrange(1 << 16)}
+    if k == 'dtype':
+        st.update(sp=rng.choice(SPELLINGS), scale=rng.choice(SCALES), scale2=rng.choice(SCALES), u2=rng.choice([None, 1, 8, 16, 24, 32, 64, (u or 8) + 8, u]), use=rng.choice(USES))
+    elif k in ('refused_create', 'other_value'): st.update(cr=rng.choice(CREATE_ROUTES), cls=rng.choice(CLASSES), edit=rng.choice(['none', 'invert', 'append', 'clear']))
+    elif k == 'refused_read': st.update(rr=rng.choice(READ_ROUTES), cls=rng.choice(CLASSES), d=rng.choice([-1, 1, 3, 8, -8]))
+    return st
+
+def gen_hist(rng, tier):
+    r = rng.random()
+    if r < 0.5:
+        name = rng.choice(INTS)
+        n = rng.choice(list(range(1, 25)) + [31, 32, 33, 63, 64, 65, 128]) if name in ('uint', 'int') else 8 * rng.choice([1, 2, 2, 3, 4, 8])
+        v = boundary(rng, name, n)
+        if not name.startswith('int') and v < 0: v = -v
+        fl = [name, n, v]
+    elif r < 0.75:
+        fl = [rng.choice(FLOATS), rng.choice([16, 32, 64]), rng.choice([0.0, -0.0, 1.0, -1.5, 0.1, 65504.0, 1e-8, 0.25, 4.0, rng.uniform(-1e3, 1e3)]).hex()]
+    else:
+        fl = gen_field(rng)
+        while fl[0] in INTS + FLOATS: fl = gen_field(rng)
+    u = field_ref(fl)[1]
+    prelude = [gen_pstep(rng, fl[0], u) for _ in range(rng.choice([1, 1, 2, 3, 4, 6, 9, 14]))]
+    return {'op': 'hist', 'field': fl, 'prelude': prelude, 'cr': rng.choice(CREATE_ROUTES), 'rr': rng.choice(READ_ROUTES), 'cls': rng.choice(CLASSES), 'lsb0': rng.random() < 0.2,
+            'refuse': [[rng.choice(REFUSALS), rng.randrange(1 << 16)] for _ in range(rng.choice([0, 1, 2]))]}         # refused calls on the object each reading route then reads from
+
+def make_dtype(st):
+    """the Dtype of a prelude step in the spelling it asks for"""
+    import bitstring
+    from bitstring import Dtype
+    name, u, sp, sc, sc2, u2 = st['name'], st['u'], st['sp'], st['scale'], st['scale2'], st['u2']
+    plain = lambda: Dtype(name, u) if u is not None else Dtype(name)
+    if sp == 'name_len': return plain()
+    if sp == 'token': return Dtype(tok_of(name, u))
+    if sp == 'nocolon': return Dtype(tok_of(name, u, False))
+    if sp == 'kwlen': return Dtype(name, length=u)
+    if sp == 'name_only': return Dtype(name)
+    if sp == 'from_dtype': return Dtype(plain())
+    if sp == 'from_dtype_same_len': return Dtype(plain(), u)
+    if sp == 'from_dtype_len': return Dtype(plain(), length=u2)
+    if sp == 'from_dtype_scale': return Dtype(plain(), scale=sc)
+    if sp == 'from_dtype_len_scale': return Dtype(plain(), u2, sc)
+    if sp == 'from_scaled_dtype': return Dtype(Dtype(name, u, scale=sc), scale=sc2)
+    if sp == 'from_scaled_dtype_noscale': return Dtype(Dtype(name, u, scale=sc))
+    if sp == 'name_len_scale': return Dtype(name, u, sc)
+    if sp == 'token_scale': return Dtype(tok_of(name, u), scale=sc)
+    if sp == 'kw_scale_only': return Dtype(name, scale=sc)
+    if sp == 'from_dtype_scale_none': return Dtype(Dtype(name, u, scale=sc), length=u, scale=None)
+    if sp == 'register': return bitstring.dtypes.dtype_register.get_dtype(name, u, scale=sc if st['r'] % 2 else None)
+    raise AssertionError(sp)
+
+def other_value(name, u, r, bad=False):
+    """another value of the dtype (bad: one the dtype has to refuse)"""
+    import bitstring
+    if name in INTS:
+        signed = name.startswith('int'); lo, hi = (-(1 << (u - 1)), (1 << (u - 1)) - 1) if signed else (0, (1 << u) - 1)
+        if bad: return [hi + 1, lo - 1, 'abc', None, hi + 1 + r, 1.5][r % 6]
+        return lo + r % (hi - lo + 1)
+    if name in FLOATS: return ['abc', None, [1.0], 1j][r % 4] if bad else [1.0, -2.5, 0.1, 0.0, 1e10, 3][r % 6]
+    if name == 'bool': return ['2', 'maybe', 7, None][r % 4] if bad else bool(r % 2)
+    k = max((u or 1) // {'hex': 4, 'oct': 3}.get(name, 1), 1)          # digits / bytes / bits
+    if name == 'hex': return 'xyz' if bad else format(r, 'x').zfill(k)[-k:]
+    if name == 'oct': return '89' if bad else format(r, 'o').zfill(k)[-k:]
+    if name == 'bin': return '012' if bad else format(r, 'b').zfill(k)[-k:]
+    if name == 'bytes': return (b'\x00' * (k + 1) if r % 2 else 17) if bad else bytes((r + i) % 256 for i in range(k))
+    return (bitstring.Bits(k + 1) if r % 2 else 'zz') if bad else bitstring.Bits(uint=r % (1 << min(k, 16)), length=k) if k >= 16 else bitstring.Bits(uint=r % (1 << k), length=k)
+
+def run_pstep(st):
+    import bitstring, copy
+    from bitstring import Dtype, Bits, BitArray
+    name, u, r, k = st['name'], st['u'], st['r'], st['k']
+    if k == 'dtype':
+        d = make_dtype(st); use = st['use']
+        nb = d.bitlength or 8
+        some = Bits(uint=r % (1 << min(nb, 16)), length=nb)
+        if use == 'build': return d.build(other_value(d.name, d.length, r))
+        if use == 'build_bad': return d.build(other_value(d.name, d.length, r, bad=True))
+        if use == 'parse': return d.parse(some)
+        if use == 'attrs': return [d.name, d.length, d.bitlength, d.scale, d.is_signed, d.bits_per_item, d.variable_length, d.return_type, d.get_fn, d.set_fn, d.read_fn]
+        if use == 'str': return [str(d), repr(d)]
+        if use == 'hash_eq': return [hash(d), d == Dtype(name, u), d != Dtype(tok_of(name, u)), d == name, {d: 1}]
+        if use == 'array':
+            a = bitstring.Array(d, [other_value(d.name, d.length, r)]); a.append(other_value(d.name, d.length, r + 1)); return [a.tolist(), a.dtype, a.data.bin]
+        if use == 'array_dtype_set':
+            a = bitstring.Array(tok_of(name, u), [other_value(name, u, r)]); a.dtype = d; return [a.tolist(), a.dtype]
+        if use == 'readlist': return bitstring.ConstBitStream(some + some).readlist([d, d])
+        if use == 'read': s = bitstring.BitStream(some); return [s.peek(d), s.read(d)]
+        if use == 'unpack': return some.unpack([d])
+        if use == 'pack': return bitstring.pack(str(d) if r % 2 else tok_of(d.name, d.length), other_value(d.name, d.length, r))
+        if use == 'copy': return [copy.copy(d), copy.deepcopy(d)]
+        if use == 'setattr':
+            for attr in ('scale', 'length', 'name', 'bitlength'):          # read-only properties: refused
+                try: setattr(d, attr, st['scale'])
+                except Exception: pass
+            return d
+        return d
+    if k == 'refused_create':
+        kk = r % 5
+        C = cls_of(st['cls'])
+        if kk == 0 and name in INTS + FLOATS: return create(C, name, (u + 3 if name not in ('uint', 'int') else 0) if name in INTS else 17, other_value(name, u, r), st['cr'])     # a length the dtype does not allow
+        if kk == 1: return C(f'{tok_of(name, u)}=')       # a token without its value
+        return create(C, name, u, other_value(name, u, r, bad=True), st['cr'])
+    if k == 'other_value':
+        o = create(cls_of(st['cls']), name, u, other_value(name, u, r), st['cr'])
+        if isinstance(o, BitArray):
+            e = st['edit']
+            if e == 'invert' and len(o): o.invert()
+            elif e == 'append': o.append('0b1')
+            elif e == 'clear': o.clear()
+        return o
+    if k == 'refused_read':
+        nb = len(field_ref([name, u, other_json(name, u)])[0]) if name != 'bool' else 1
+        s = cls_of(st['cls'])(bin='1' * max(nb + st['d'], 0))              # not the number of bits the dtype needs
+        return read(s, name, u, st['rr'])
+    if k == 'token_misuse':
+        t = tok_of(name, u)
+        return [Bits, BitArray][r % 2]([t + '=1=2', t + ':3', t + '=', '=' + t, t + '=0x', name + ':-1=0', name + ':=1'][r % 7])
+    raise AssertionError(k)
+
+def other_json(name, u):
+    if name in INTS: return 0
+    if name in FLOATS: return (0.0).hex()
+    if name == 'bool': return False
+    return [0] * max((u or 1) // {'hex': 4, 'oct': 3}.get(name, 1), 1)
+
+def run_hist(c):
+    import bitstring
+    from bitstring import Bits
+    fl = c['field']; bits, u, val, back = field_ref(fl)
+    name = fl[0]
+    if isinstance(val, tuple): val = Bits(bin=val[1])
+    def off():
+        # diagnostic only (names the prelude step after which the plain dtype stopped giving the canonical encoding / the value)
+        bitstring.options.lsb0 = False
+        try: return [create(Bits, name, u, val, 'build').bin, create(Bits, name, u, val, 'kw_len').bin, cval(read(Bits(bin=bits), name, u, 'parse')), cval(read(Bits(bin=bits), name, u, 'prop_len'))] != [bits, bits, back, back]
+        except Exception: return True
+    def f():
+        before = off(); culprit = None
+        for i, st in enumerate(c['prelude']):
+            bitstring.options.lsb0 = bool(st.get('lsb0'))
+            try: with_alarm(lambda: run_pstep(st), 3)
+            except Exception: pass          # not judged: nothing the prelude does may change what the plain dtype encodes or returns afterwards
+            if culprit is None and not before and off(): culprit = i
+        if culprit is not None: CULPRITS.setdefault(tok_of(name, u), describe_pstep(c['prelude'][culprit]))
+        if before: before = CULPRITS.get(tok_of(name, u)) or True
+        bitstring.options.lsb0 = bool(c.get('lsb0'))
+        C = cls_of(c['cls'])
+        try:
+            s = create(C, name, u, val, c['cr'])
+            base = [s.bin, type(s).__name__, cval(read(s, name, u, c['rr']))]
+        except Exception as ex: base = 'RAISES ' + type(ex).__name__ + ': ' + str(ex)[:90]
+        made = []
+        for route in CREATE_ROUTES:
+            if route == 'token' and isinstance(val, (bytes, Bits)): continue
+            if route in ('token', 'kw_name') and isinstance(val, str) and not val: continue
+            try: made.append([route, create(C, name, u, val, route).bin])
+            except Exception as ex: made.append([route, 'RAISES ' + type(ex).__name__ + ': ' + str(ex)[:90]])
+        got = []
+        for route in READ_ROUTES:
+            try:
+                o = C(bin=bits)
+                target = bitstring.ConstBitStream(o) if route == 'read' else o          # the object the route reads from gets the refused calls first
+                for k, r in c.get('refuse', []):
+                    try: refuse(target, k, r, name, bits)
+                    except Exception: pass
+                got.append([route, cval(target.read(tok_of(name, u)) if route == 'read' else read(o, name, u, route))])
+            except Exception as ex: got.append([route, 'RAISES ' + type(ex).__name__ + ': ' + str(ex)[:90]])
+        return [base, made, got, before, culprit]
+    return attempt(f, 30)
+
+CULPRITS = {}        # diagnostic: per dtype, the first prelude step of this process after which the plain dtype no longer gave its canonical encoding
+
+def describe_pstep(st):
+    t = tok_of(st['name'], st['u'])
+    if st['k'] == 'dtype':
+        sp = st['sp']; sc, sc2, u2 = st['scale'], st['scale2'], st['u2']
+        txt = {'name_len': f"Dtype({st['name']!r}, {st['u']})", 'token': f"Dtype({t!r})", 'nocolon': f"Dtype({tok_of(st['name'], st['u'], False)!r})", 'kwlen': f"Dtype({st['name']!r}, length={st['u']})",
+               'name_only': f"Dtype({st['name']!r})", 'from_dtype': f"Dtype(Dtype({t!r}))", 'from_dtype_same_len': f"Dtype(Dtype({t!r}), {st['u']})", 'from_dtype_len': f"Dtype(Dtype({t!r}), length={u2})",
+               'from_dtype_scale': f"Dtype(Dtype({t!r}), scale={sc})", 'from_dtype_len_scale': f"Dtype(Dtype({t!r}), {u2}, {sc})", 'from_scaled_dtype': f"Dtype(Dtype({t!r}, scale={sc}), scale={sc2})",
+               'from_scaled_dtype_noscale': f"Dtype(Dtype({t!r}, scale={sc}))", 'name_len_scale': f"Dtype({st['name']!r}, {st['u']}, {sc})", 'token_scale': f"Dtype({t!r}, scale={sc})",
+               'kw_scale_only': f"Dtype({st['name']!r}, scale={sc})", 'from_dtype_scale_none': f"Dtype(Dtype({t!r}, scale={sc}), length={st['u']}, scale=None)", 'register': f"dtype_register.get_dtype({st['name']!r}, {st['u']}, scale=...)"}[sp]
+        return txt + (f" then {st['use']}" if st['use'] != 'none' else '')
+    if st['k'] in ('refused_create', 'other_value'): return f"{st['k']} of {t} via {st['cr']} as {st['cls']}"
+    if st['k'] == 'refused_read': return f"refused read of {t} via {st['rr']} from {st['d']:+d} bits"
+    return f"{st['k']} of {t}"
+
+def oracle_hist(c, obs):
+    fl = c['field']; bits, u, val, back = field_ref(fl)
+    t = tok_of(fl[0], u)
+    pre = "after {" + '; '.join(describe_pstep(st) for st in c['prelude'])[:500] + "} "
+    if obs[0] != 'ok': return pre + f"the case could not be run: {obs}"
+    base, made, got, before, culprit = obs[1]
+    if culprit is not None: pre = f"after {{{describe_pstep(c['prelude'][culprit])}}} (step {culprit + 1} of a prelude of {len(c['prelude'])}; the plain dtype was right before it and wrong right after it) "
+    if before: pre = ("(the plain dtype was already wrong when this case started: state left behind by an earlier case of this run"
+                      + (f", first seen right after its prelude step {{{before}}}" if isinstance(before, str) else '') + ") " + pre)
+    what = f"{t} = {str(back)[:50]}{' [lsb0]' if c.get('lsb0') else ''}"
+    if base != [bits, c['cls'], back]:
+        return pre + f"{what} created via {c['cr']} and read via {c['rr']} as {c['cls']} gave {str(base)[:200]}; canonical encoding {bits[:64]}, value {str(back)[:50]}"
+    for route, b in made:
+        if b != bits: return pre + f"{what}: creation route {route} ({c['cls']}) gives {b[:120]}; canonical encoding {bits[:64]}"
+    for route, v in got:
+        if v != back: return pre + f"the bits {bits[:64]} of {what}: {('after the refused calls ' + ', '.join(k for k, _ in c['refuse']) + ' on the same object, ') if c.get('refuse') else ''}reading route {route} ({c['cls']}) returns {str(v)[:120]}; the value is {str(back)[:50]}"
+    return None
 
 def create(C, name, n, value, route):
     """build class C object for dtype name, length n (units), value, via route. n None = no length"""
@@ -147,6 +602,8 @@ def run_impl(c):
     import bitstring
     bitstring.options.lsb0 = bool(c.get('lsb0'))     # whole-value interpretations and the stored bits are the same in both numberings (reset by the driver)
     C = cls_of(c['cls']); op = c['op']
+    if op == 'stream': return run_stream(c)
+    if op == 'hist': return run_hist(c)
     if op == 'int':
         def f():
             s = create(C, c['name'], c['n'], c['v'], c['cr'])
@@ -235,6 +692,8 @@ def ref_float_bits(name, n, x):
 
 def oracle(c, obs):
     op = c['op']
+    if op == 'stream': return oracle_stream(c, obs)
+    if op == 'hist': return oracle_hist(c, obs)
     if op == 'int':
         exp = ref_int_bits(c['name'], c['n'], c['v'])
         if obs != ('ok', [exp, c['cls'], c['v']]):
@@ -278,7 +737,9 @@ def oracle(c, obs):
         if rebuilt != c['bits']: return f"interpreting {c['bits'][:64]} as {c['name']} ({str(v)[:40]}) and rebuilding gives {rebuilt[:64]}"
         return None
 
-def nontrivial(c, obs): return c.get('v', 1) != 0
+def nontrivial(c, obs):
+    if c['op'] == 'hist': return c['field'][2] not in (0, False, (0.0).hex())
+    return c.get('v', 1) != 0
 def classify(c, obs): return None
 
 def coq_check(c, obs):
@@ -291,6 +752,11 @@ def coq_check(c, obs):
                   'uintne': 'getuintle' if le else 'getuintbe', 'intne': 'getintle' if le else 'getintbe'}[name]
         return (f"rbits_eqb (set_intlike {signed} {cbool(le)} 0 {cz(v)} (Some {n})) (Ok {cbits(obs[1][0])}) && "
                 f"rz_eqb ({getter} {cbits(obs[1][0])}) (Ok {cz(obs[1][2])})")
+    if op == 'hist' and obs[0] == 'ok' and isinstance(obs[1][0], list):       # the model knows no history: the case inside is evaluated as it is
+        name, n, v = c['field']; b = obs[1][0]
+        if name in INTS: return coq_check({'op': 'int', 'name': name, 'n': n, 'v': v}, ('ok', b))
+        if name in ('hex', 'oct', 'bin'): return coq_check({'op': 'digits', 'kind': name, 'digits': v}, ('ok', [b[0], b[2]]))
+        return None
     if op == 'digits' and obs[0] == 'ok' and obs[1] != ['skip'] and c['kind'] in ('hex', 'oct', 'bin'):
         w = {'hex': 4, 'oct': 3, 'bin': 1}[c['kind']]
         return (f"rbits_eqb (digits2bits {w} {clist(c['digits'], cz)}) (Ok {cbits(obs[1][0])}) && "
